@@ -28,7 +28,7 @@ OPS = {"add": operator.add, "subtract": operator.sub, "multiply": operator.mul, 
 
 @st.composite
 def grid_nm(draw, lo=200.0, hi=3000.0, nmin=2, nmax=40):
-    n = draw(st.integers(nmin, nmax))
+    n = draw(st.integers(nmin, nmax)) if draw(st.floats(0, 1)) > 0.03 else draw(st.sampled_from([257, 512, 1025, 3000]))
     a = draw(gen.finite(lo, hi - 50))
     b = draw(gen.finite(a + 5.0, hi))
     if draw(st.booleans()):
